@@ -51,7 +51,7 @@ Definition tview := restrict_tensor table.
 Definition exact_entries := [E_matmul; E_rmatmul; E_inv_quad; E_mul; E_add; E_sub].
 Definition square_entries :=
   [E_solve; E_inv_quad; E_inv_quad_logdet; E_add_diagonal; E_logdet; E_diagonalization; E_root_decomposition;
-   E_root_inv_decomposition].
+   E_root_inv_decomposition; E_cholesky].
 Definition classes := nodup string_dec (map r_cls table).
 Definition cells (es : list entry) : list (string * entry) := flat_map (fun c => map (fun e => (c, e)) es) classes.
 
@@ -127,8 +127,54 @@ Proof. vm_compute. reflexivity. Qed.
 Lemma base_class_guarded :
   forallb (fun e => exact_guarded ("LinearOperator"%string, e)) exact_entries = true /\
   forallb (fun e => square_guarded ("LinearOperator"%string, e))
-          [E_solve; E_inv_quad; E_add_diagonal; E_diagonalization; E_root_decomposition; E_root_inv_decomposition] = true.
+          [E_solve; E_inv_quad; E_add_diagonal; E_diagonalization; E_root_decomposition; E_root_inv_decomposition;
+           E_cholesky] = true.
 Proof. split; vm_compute; reflexivity. Qed.
+
+(* FINITE (regenerated): the classes whose `solve` calls _matmul_broadcast_shape(self.shape, <rhs>.shape) on some path on the
+   pinned tree still do (a repair adds classes and keeps this true; removing the call from one solve breaks it, also when a
+   check further down — DiagLinearOperator.solve inside the Woodbury formula — still catches the bad right-hand side) *)
+Definition solve_has_mm (c : string) : bool :=
+  match find_row table c E_solve with
+  | Some r => existsb (fun x => has_guard G_mm (x_guards x)) (r_exits r)
+  | None => false
+  end.
+Definition solve_mm_classes : list string := filter solve_has_mm classes.
+Open Scope string_scope.
+Definition pinned_solve_mm_classes : list string :=
+  ["AbstractPermutationLinearOperator";
+   "AddedDiagLinearOperator";
+   "BatchRepeatLinearOperator";
+   "BlockDiagLinearOperator";
+   "BlockInterleavedLinearOperator";
+   "BlockLinearOperator";
+   "CatLinearOperator";
+   "ConstantMulLinearOperator";
+   "DenseLinearOperator";
+   "IdentityLinearOperator";
+   "InterpolatedLinearOperator";
+   "KeOpsLinearOperator";
+   "KernelLinearOperator";
+   "KroneckerProductAddedDiagLinearOperator";
+   "KroneckerProductLinearOperator";
+   "KroneckerProductTriangularLinearOperator";
+   "LinearOperator";
+   "LowRankRootAddedDiagLinearOperator";
+   "LowRankRootLinearOperator";
+   "MaskedLinearOperator";
+   "MatmulLinearOperator";
+   "MulLinearOperator";
+   "PermutationLinearOperator";
+   "PsdSumLinearOperator";
+   "RootLinearOperator";
+   "SumBatchLinearOperator";
+   "SumKroneckerLinearOperator";
+   "SumLinearOperator";
+   "ToeplitzLinearOperator";
+   "TransposePermutationLinearOperator"].
+Close Scope string_scope.
+Lemma solve_guards_kept : forallb solve_has_mm pinned_solve_mm_classes = true.
+Proof. vm_compute. reflexivity. Qed.
 
 (* every class that has its own _check_args has a constructor chain that reaches LinearOperator.__init__
    (where _check_args runs under settings.debug) *)
